@@ -775,6 +775,21 @@ def c16(tier, replay):
         fill = [{"do": "send", "line": live[i % len(live)]} for i in range(n)]
         sessions.append([{"do": "send", "line": shuffle}, {"do": "go", "line": "go"}] + fill + longprobe)
         shard.append(nprobe + 43)
+    # MANY earlier go commands (instant ones), then a probe whose plan sits right at the zero / one millisecond boundary of the time
+    # policy without movestogo (clock 104 .. 118 ms: a fresh engine plans 0 ms and hands back its first move at once; 119 .. 137 ms:
+    # 1 ms): whatever counts the go commands or moves of a session (a "moves played so far" estimate that shortens the default
+    # horizon, an adaptive overhead) moves the plan across that boundary and with it the reply of the zero-allowance probe
+    for bi, (npre, clk) in enumerate(((13, 118), (26, 110), (40, 104), (26, 137)) if q else
+                                     ((8, 118), (13, 118), (20, 112), (26, 110), (30, 118), (40, 104), (64, 118), (26, 137), (40, 125), (100, 118))):
+        cmd = live[bi % len(live)]
+        probe = [{"do": "send", "line": cmd}, {"do": "go", "line": "go wtime %d btime %d" % (clk, clk), "extra": {"probe": "manygo%d" % bi, "timed": clk > 118}}]
+        pre = []
+        for i in range(npre):
+            pre += [{"do": "send", "line": live[(bi + i) % len(live)]}, {"do": "go", "line": "go wtime 0 btime 0"}]
+        sessions.append(list(probe))
+        shard.append(nprobe + 36 + bi % 4)
+        sessions.append(pre + probe)
+        shard.append(nprobe + 36 + bi % 4)
     # probes whose move list contains promotions of every kind (a replayed under-promotion must not depend on anything
     # but its letter), asked of a fresh process and of one whose logging was switched on before (setoption DebugLogLevel
     # Info is the one option the engine has; whatever is formatted for the log is only evaluated then)
